@@ -171,7 +171,29 @@ pub fn run(ctx: &Ctx) -> i32 {
                 }
             }
         }
-        ctx.family("anim-direction", total, "animation direction over all u8 values except 0..2 on every tag of every base", true);
+        // a tags chunk in a later frame (decoded, then ignored): an unknown direction there is refused as well
+        for (bn, base) in &bases {
+            for fi in 1..base.frames.len() {
+                let mut ok = base.clone();
+                ok.frames[fi].push(tags(vec![Tag::new("late", 0, 0, 1), Tag::new("later", 0, 0, 2)]));
+                if !matches!(crate::common::load(&ok.encode()), crate::common::Loaded::Ok(_)) {
+                    ctx.note(format!("{}: a tags chunk in frame {} is refused as such; not swept", bn, fi));
+                    continue;
+                }
+                for t in 0..2usize {
+                    for d in 3..=255u8 {
+                        total += 1;
+                        let case = || format!("{} tags chunk in frame {} tag[{}].direction={}", bn, fi, t, d);
+                        let mut f = ok.clone();
+                        if let Some(Chunk { body: Body::Tags(tg), .. }) = f.frames[fi].chunks.last_mut() {
+                            tg.tags[t].dir = d;
+                        }
+                        expect_err_class(ctx, "anim-direction", &case, &f.encode(), "a tag (in a tags chunk of a later frame) has an unknown animation direction", hash64(&("dir-late", bn, fi, t)));
+                    }
+                }
+            }
+        }
+        ctx.family("anim-direction", total, "animation direction over all u8 values except 0..2 on every tag of every base, and on both tags of a tags chunk appended to each later frame", true);
     }
 
     // tilesets whose pixels are not embedded
